@@ -42,6 +42,9 @@ def _main(a, seed):
         # meta patterns are ordinary values: plain/compiled x string/file x matching method (C15-C19)
         from .props import apistate
         apistate.check(run, a.pid, coverage)
+        # scaled instances: sizes beyond the exhaustive bounds (two-digit counts and group numbers, long texts, ...)
+        from .props import scale
+        scale.check(run, a.pid, coverage)
         # history differential: the value of a constructor call must not depend on what was built before it
         from .props import hd
         exprs = hd.exprs_for(a.pid, a.tier)
